@@ -307,9 +307,18 @@ fn sweep_degenerate(api: &Api, seed: u64, cx: &mut Cx) {
     };
     cx.context_done();
     let sk = api.spec.field(Kind::Setup, "server_sk").of(&f.setup).to_vec();
-    for period in [0usize, 1, 2, 8, 32, 64] {
+    // period 1000/1001/1002 stand for the constant generators 0x00, 0xff and 0x01
+    for period in [0usize, 1, 2, 8, 32, 64, 1000, 1001, 1002] {
         for lab in ["a", "b"] {
-            let mk = || Tape::degenerate(&format!("seed{}/c12/g/{}", seed, lab), period);
+            if period >= 1000 && lab == "b" {
+                continue;
+            }
+            let mk = || match period {
+                1000 => Tape::constant(0x00),
+                1001 => Tape::constant(0xff),
+                1002 => Tape::constant(0x01),
+                _ => Tape::degenerate(&format!("seed{}/c12/g/{}", seed, lab), period),
+            };
             let ops: Vec<(&str, Box<dyn Fn() -> Result<(), E> + '_>)> = vec![
                 ("setup", Box::new(|| api.setup(&mut mk()).map(|_| ()))),
                 ("setup_with_key", Box::new(|| api.setup_with_key(&mut mk(), &sk).map(|_| ()))),
@@ -318,7 +327,7 @@ fn sweep_degenerate(api: &Api, seed: u64, cx: &mut Cx) {
                 ("slogin_start(no record)", Box::new(|| api.slogin_start(&mut mk(), &Blob::n(&f.setup), None, &Blob::n(&f.login.ke1), &p.cid, None, None, None).map(|_| ()))),
             ];
             for (name, op) in ops {
-                cx.begin_case(json!({"sweep": "degenerate generator", "op": name, "generator": if period == 0 { "constant".to_string() } else { format!("period {} bytes", period) }, "label": lab}));
+                cx.begin_case(json!({"sweep": "degenerate generator", "op": name, "generator": match period { 0 => "constant".to_string(), 1000 => "all 0x00".to_string(), 1001 => "all 0xff".to_string(), 1002 => "all 0x01".to_string(), n => format!("period {} bytes", n) }, "label": lab}));
                 if !cx.state(&("degenerate", name, period, lab)) {
                     continue;
                 }
